@@ -16,8 +16,24 @@ Flags(a) == [ power |-> a.power, t2 |-> a.t2, mode |-> a.mode, fan |-> a.fan, sw
 Applying == {"refresh", "apply", "toggle_display", "start_self_clean"}
 LastGoodState(fs) == LET S == {k \in 1..Len(fs) : GoodState(fs[k])} IN
                      IF S = {} THEN 0 ELSE CHOOSE k \in S : \A j \in S : j <= k
+(* property-backed attributes (swing angles): the value reported by the last fully decodable property response of the exchange that reports it *)
+IsProps(f) == Good(f) /\ f[11] \in {176, 177}
+Partial(f) == IsProps(f) /\ \E j \in 1..Len(PropsOf(BodyOf(f))) : PropsOf(BodyOf(f))[j].val = -1
+Reports(f, id) == IsProps(f) /\ \E j \in 1..Len(PropsOf(BodyOf(f))) : PropsOf(BodyOf(f))[j].id = id
+ValueIn(f, id) == LET ps == PropsOf(BodyOf(f))
+                      j == CHOOSE x \in 1..Len(ps) : ps[x].id = id /\ \A y \in (x + 1)..Len(ps) : ps[y].id # id IN ps[j].val
+PropClause(v, id, name) ==
+  LET fs == v.frames
+      K == {k \in 1..Len(fs) : Reports(fs[k], id)} IN
+  IF \E k \in 1..Len(fs) : Partial(fs[k]) THEN "ok"                      \* a record running past the end: what is kept of that frame is not pinned down here
+  ELSE IF K = {} THEN (IF v.pflags[name] # v.pbefore[name] THEN "exchange without a decodable property response changed a property attribute" ELSE "ok")
+  ELSE LET k == CHOOSE x \in K : \A y \in K : y <= x IN
+       IF ValueIn(fs[k], id) \in {0, 1, 25, 50, 75, 100} /\ v.pflags[name] # ValueIn(fs[k], id)
+       THEN "decodable property response delivered in the exchange was not applied (or another frame of the exchange disturbed it)" ELSE "ok"
 Verdict(v) ==
   IF v.raised # "none" THEN "operation raised " \o v.raised
+  ELSE IF v.op \in Applying /\ PropClause(v, PropSwingUD, "ud") # "ok" THEN PropClause(v, PropSwingUD, "ud")
+  ELSE IF v.op \in Applying /\ PropClause(v, PropSwingLR, "lr") # "ok" THEN PropClause(v, PropSwingLR, "lr")
   ELSE LET k == LastGoodState(v.frames) IN
        IF v.op \in Applying /\ k # 0 /\ Flags(v.flags) # StateView(BodyOf(v.frames[k]))
             THEN "decodable state response delivered in the exchange was not applied (or a later undecodable one disturbed it)"
